@@ -39,8 +39,14 @@ type Expected struct {
 	Hits        map[string][]int // "ownerPath\x1fprimaryName" -> argv indices of the tokens that addressed the option
 	LevelAt     []string         // per argv index: path of the level at which the token was interpreted ("" = not reached)
 	TermAsValue int              // number of `--` tokens taken as a still-missing mandatory value
-	Decisions   int              // number of greedy lookahead decisions taken (for non-triviality rules)
-	Descents    int
+	// MustRemain: argv indices of tokens that hold an unknown option although the case as a whole is unspecified
+	// (value-taking letter inside a bundle); in Pass/Warn mode such a token must still be part of remaining (C03)
+	MustRemain     []int
+	MustRemainMode int
+	MustRemainName string // the first unknown letter of that token
+	MustRemainRO   bool   // the level at which that token is interpreted has require-order set (it is then the stop token)
+	Decisions      int    // number of greedy lookahead decisions taken (for non-triviality rules)
+	Descents       int
 	// Dispatch expectation (valid when !Fail)
 	Disp DispExp
 }
@@ -480,6 +486,15 @@ LOOP:
 				o := vo.Spec
 				st := states[o]
 				if pi != len(pairs)-1 && !o.Kind.IsFlag() {
+					for _, later := range pairs[pi+1:] {
+						if k2, c2 := resolve(cur, later.name); k2 == "" && len(c2) == 0 && utf8.ValidString(later.name) {
+							exp.MustRemain = append(exp.MustRemain, i)
+							exp.MustRemainMode = cur.UnknownMode
+							exp.MustRemainName = later.name
+							exp.MustRemainRO = cur.RequireOrder
+							break
+						}
+					}
 					return unspec("value-taking letter inside a bundle")
 				}
 				st.called, st.as = true, key
